@@ -143,6 +143,11 @@ pub use crate::export::ExportError;
 #[cfg(feature = "chrono-impl")]
 mod chrono;
 mod export;
+#[cfg(ts_rs_verif)]
+#[doc(hidden)]
+pub mod verif {
+    pub use crate::export::verif::*;
+}
 #[cfg(feature = "serde-json-impl")]
 mod serde_json;
 #[cfg(feature = "tokio-impl")]
